@@ -203,7 +203,7 @@ theorem flushQ_inv {s : St} (h : Inv0 s) : Inv (flushQ s) := by
     exact ⟨r, List.mem_append_left _ hr, h⟩
 
 
-theorem inv0_dur {s : St} (h : Inv0 s) (k : Nat) (hk : k ≤ s.len) : Inv0 { s with dur := max s.dur k } := by
+theorem inv0_dur {s : St} (h : Inv0 s) (k : Nat) (hk : k ≤ s.len) : Inv0 (announce s k) := by
   obtain ⟨i1, i2, i3, i6a, i6b, i7a, i7b, dl, rpl, ql, qs, rl, ln, q0, ack, wq⟩ := h
   refine ⟨i1, i2, i3, i6a, i6b, ?_, ?_, ?_, rpl, ql, qs, rl, ln, q0, ?_, wq⟩
   · show s.com.off ≤ max s.dur k; omega
@@ -236,7 +236,7 @@ theorem commitStep_inv {s : St} (h : Inv s) (k : Nat) (hk : k ≤ s.len) : Inv (
   by_cases hs : k < s.ci
   · simp only [hs, if_true]; exact ⟨hd, h1⟩
   · simp only [hs, if_false]
-    have hn : Inv0 (notify { s with dur := max s.dur k } k) := notify_inv0 hd k (by show k ≤ max s.dur k; omega)
+    have hn : Inv0 (notify (announce s k) k) := notify_inv0 hd k (by show k ≤ max s.dur k; omega)
     by_cases hdc : delayedCommit s k = true
     · simp only [hdc, if_true]
       apply flushQ_inv
@@ -393,6 +393,32 @@ theorem deliverApply_inv {s : St} (h : Inv s) (n : Nat) : Inv (deliverApply s n)
         have : s.q = true := hqt
         rw [hqf] at this; cases this
     · have : readerOK s n = false := by simpa using hr
+      simp only [this, Bool.not_false, if_true]; exact h
+
+theorem deliverBuf_inv {s : St} (h : Inv s) (m : Nat) : Inv (deliverBuf s m).1 := by
+  unfold deliverBuf
+  by_cases hb : badBuf s m = true
+  · simp only [hb, if_true]; exact h
+  · simp only [hb]
+    by_cases hr : readerOK s (fitCount m s.rest) = true
+    · simp only [hr, Bool.not_true]
+      obtain ⟨h1, h2, h3⟩ := readerOK_spec hr
+      have hsplit : s.rest = s.rest.take (fitCount m s.rest) ++ s.rest.drop (fitCount m s.rest) :=
+        (List.take_append_drop _ s.rest).symm
+      by_cases hq : queueCond s = true
+      · simp only [hq, if_true]
+        refine ⟨enqueue_inv0 h.1 _ _ _ _ hsplit rfl (by intro r hr; cases hr) h1 h2 h3, ?_⟩
+        intro _
+        simp [queueCond] at hq
+        exact hq.2
+      · have hq' : queueCond s = false := by simpa using hq
+        simp only [hq', Bool.false_eq_true, if_false]
+        obtain ⟨haq, hqf⟩ := direct_aq_nil h hq'
+        refine ⟨direct_inv0 h.1 _ _ haq hsplit h1 h2 h3, ?_⟩
+        intro hqt
+        have : s.q = true := hqt
+        rw [hqf] at this; cases this
+    · have : readerOK s (fitCount m s.rest) = false := by simpa using hr
       simp only [this, Bool.not_false, if_true]; exact h
 
 theorem deliverSkip_inv {s : St} (h : Inv s) (n : Nat) : Inv (deliverSkip s n).1 := by
@@ -754,6 +780,8 @@ theorem step_inv {s : St} (h : Inv s) (op : Op) : Inv (step s op).1 := by
   | tx => exact txStep_inv h
   | dApply n => exact deliverApply_inv h n
   | dSkip n => exact deliverSkip_inv h n
+  | dApplyBuf m => exact deliverBuf_inv h m
+  | view => exact h
   | append l =>
     simp only [step]
     split
